@@ -968,7 +968,7 @@ func main() {
 		return
 	}
 	if len(os.Args) >= 4 && os.Args[1] == "replay-sched" {
-		runScript("replay", parseSpec(os.Args[2]), strings.Fields(os.Args[3]))
+		runScript("replay", parseSpec(os.Args[2]), strings.Fields(os.Args[3]), nil)
 		summary()
 		return
 	}
@@ -1012,7 +1012,7 @@ func main() {
 	// D3: three transactions over the 3-key pool (<= 2 keys each, quick; <= 3 thorough), sampled configurations, exhaustive DFS each
 	nd3 := 150
 	if thorough {
-		nd3 = 6000
+		nd3 = 1500
 	}
 	opts5 := tsOptions(5)
 	subs := subsets(3, 2)
@@ -1028,6 +1028,35 @@ func main() {
 		}
 		c := &config{size: sizes[pi], pat: pats[pi], txns: tx, noMacro: j%3 == 0}
 		runDFS(fmt.Sprintf("d3-%d", j), c, 60000)
+	}
+	// D3X (thorough): three transactions EXHAUSTIVELY: all triples of key sets (<= 2 keys, 3-key pool), starts 1 < 2 < 3
+	// (transactions are interchangeable, all key-set triples are enumerated), every commit in {none, start+1, 4}
+	// (a commit equal to / below / above each later start), 1 slot and 2 slots with a collision; atomic edges.
+	if thorough {
+		sub2 := subsets(3, 2)
+		j := 0
+		for pi := 0; pi < 2; pi++ {
+			for _, a := range sub2 {
+				for _, b := range sub2 {
+					for _, cc := range sub2 {
+						for m := 0; m < 27; m++ {
+							cm := func(s uint64, x int) uint64 {
+								switch x {
+								case 0:
+									return 0
+								case 1:
+									return s + 1
+								}
+								return 4
+							}
+							tx := []txn{{a, 1, cm(1, m%3)}, {b, 2, cm(2, (m/3)%3)}, {cc, 3, cm(3, m/9)}}
+							runDFS(fmt.Sprintf("d3x-%d", j), &config{size: sizes[pi], pat: pats[pi], txns: tx, noMacro: true}, 200000)
+							j++
+						}
+					}
+				}
+			}
+		}
 	}
 	// D4: four transactions x <= 3 keys from a 4-key pool, sampled, budgeted DFS (atomic edges only)
 	nd4 := 12
@@ -1069,7 +1098,7 @@ func main() {
 	// walks: bigger configurations, random schedules
 	nw := 300
 	if thorough {
-		nw = 20000
+		nw = 8000
 	}
 	for j := 0; j < nw; j++ {
 		var tx []txn
